@@ -16,7 +16,7 @@ use crate::{
     ensure,
 };
 
-const RULE: &str = "a case = 1-3 emitter threads issuing 1-3 register/describe(+update) operations each through the weak wrapper (the wrapped double yields inside every call, so an emission can be in flight) and one owner thread that, after 0-2 own steps, calls into_inner() or drops the recovery handle; all under a generated schedule over the wrapper's upgrade point, the into_inner retry loop and the double's enter/exit points. Non-trivial = into_inner()/the handle drop is issued while an emission is inside the double or between a successful upgrade and its call. Distinct = distinct (case, schedule bytes) resp. distinct interleavings in the exhaustive sub-lane. Process lane: real install(), including over an existing global recorder.";
+const RULE: &str = "a case = 1-3 emitter threads issuing 1-3 register/describe(+update) operations each through the weak wrapper (the wrapped double yields inside every call, so an emission can be in flight) and one owner thread that, after 0-2 own steps, calls into_inner() or drops the recovery handle; all under a generated schedule over the wrapper's upgrade point, the into_inner retry loop and the double's enter/exit points. Non-trivial = into_inner()/the handle drop is issued while an emission is inside the double or between a successful upgrade and its call. Distinct = distinct (case, schedule bytes) resp. distinct interleavings in the exhaustive sub-lane. Pass-through lane: 1-8 generated recorder calls (every kind; describe with/without unit and with empty text; names, labels, metadata, handle updates) go through the wrapper and into a second double directly and both must log the same, then into_inner()/drop and 0-4 more calls that must reach nothing. Process lane: real install(), including over an existing global recorder.";
 
 static META: Metadata<'static> = Metadata::new("c20", Level::INFO, Some("c20::mod"));
 
@@ -379,6 +379,59 @@ pub fn child(seed: u64) -> i32 {
     }
 }
 
+// ---------------------------------------------------------------- pass-through lane (differential)
+
+/// Generated recorder calls go through the wrapper and, in parallel, straight into a second double: while
+/// the handle is alive both doubles must log the same operations; after recovery / handle drop the wrapper's
+/// double must log nothing more and handles obtained through the wrapper afterwards must be inert.
+pub fn case_passthrough(bytes: &[u8], _s: &[u8], ctx: &mut Ctx) -> Result<(), Fail> {
+    use crate::doubles::{decode_call, ops_of, RecCall};
+    let mut src = Source::new(bytes);
+    let n_alive = 1 + src.below(8);
+    let n_after = src.below(5);
+    let into_inner = src.bool();
+    let calls: Vec<RecCall> = (0..n_alive + n_after).map(|_| decode_call(&mut src)).collect();
+    ctx.case(&(n_alive, into_inner, &calls));
+    if calls[..n_alive].iter().any(|c| matches!(c, RecCall::Describe { unit: None, desc, .. } if desc.is_empty())) {
+        ctx.nontrivial("describe-without-unit-and-text-while-alive");
+    }
+    if n_after > 0 {
+        ctx.nontrivial("calls-after-recovery");
+    }
+    let (log_w, log_d) = (new_log(), new_log());
+    let double = LogRecorder::new(7, &log_w);
+    let drops = double.drops.clone();
+    let direct = LogRecorder::new(8, &log_d);
+    let (wrapped, handle) = RecoverableRecorder::new(double).__verif_build();
+    for (i, c) in calls[..n_alive].iter().enumerate() {
+        c.apply(&wrapped);
+        c.apply(&direct);
+        let (w, d) = (ops_of(&log_w), ops_of(&log_d));
+        ensure!(w == d, "emission-while-alive-not-passed-through", "call {} ({:?}) through the wrapper, handle alive: the wrapped recorder logged {:?}, a recorder called directly logs {:?}", i, c, w.iter().skip(d.len().min(w.len()).saturating_sub(3)).collect::<Vec<_>>(), d.iter().skip(d.len().saturating_sub(3)).collect::<Vec<_>>());
+    }
+    let before = log_w.lock().unwrap().len();
+    if into_inner {
+        let rec = handle.into_inner();
+        ensure!(rec.id == 7, "into_inner-returned-another-recorder", "id {}", rec.id);
+        ensure!(drops.load(Ordering::SeqCst) == 0, "recorder-dropped-before-hand-back", "into_inner returned a recorder whose destructor already ran");
+        for c in &calls[n_alive..] {
+            c.apply(&wrapped);
+        }
+        ensure!(log_w.lock().unwrap().len() == before, "emission-delivered-after-recovery", "calls through the wrapper after into_inner() reached the recorder: {:?}", ops_of(&log_w).into_iter().skip(before).collect::<Vec<_>>());
+        drop(rec);
+    } else {
+        drop(handle);
+        ensure!(drops.load(Ordering::SeqCst) == 1, "recorder-not-dropped-exactly-once", "after the handle drop (no call in flight) the recorder was dropped {} times", drops.load(Ordering::SeqCst));
+        for c in &calls[n_alive..] {
+            c.apply(&wrapped);
+        }
+        ensure!(log_w.lock().unwrap().len() == before, "emission-delivered-after-recovery", "calls through the wrapper after the handle was dropped reached the recorder or its handles: {:?}", ops_of(&log_w).into_iter().skip(before).collect::<Vec<_>>());
+    }
+    drop(wrapped);
+    ensure!(drops.load(Ordering::SeqCst) == 1, "recorder-not-dropped-exactly-once", "dropped {} times", drops.load(Ordering::SeqCst));
+    Ok(())
+}
+
 /// Free-running stress: emitters hammer the wrapper while the owner recovers.
 fn stress(pr: &PropRun) -> LaneReport {
     let start = std::time::Instant::now();
@@ -471,6 +524,7 @@ pub fn run(cfg: &RunCfg, replay: Option<&str>) -> i32 {
     let mut pr = PropRun::new("C20", cfg, RULE);
     pr.register("schedules", &case_sched);
     pr.register("exhaustive-le2-preemptions", &case_exhaustive_replay);
+    pr.register("pass-through", &case_passthrough);
     let child_replay = |b: &[u8], _s: &[u8], ctx: &mut Ctx| -> Result<(), Fail> {
         ctx.case(&("child process", b));
         crate::engine::child::replay_child("C20", b)
@@ -488,6 +542,8 @@ pub fn run(cfg: &RunCfg, replay: Option<&str>) -> i32 {
     let r = run_lane(&c, "C20", &Lane { name: "schedules", cases: c.cases(1_000_000, 10_000_000), max_len: 16, sched_len: 64, workers: 0, f: &case_sched });
     pr.push(r);
     let r = exhaustive(&pr);
+    pr.push(r);
+    let r = run_lane(&c, "C20", &Lane { name: "pass-through", cases: c.cases(300_000, 6_000_000), max_len: 200, sched_len: 0, workers: 0, f: &case_passthrough });
     pr.push(r);
     let r = stress(&pr);
     pr.push(r);
